@@ -1,6 +1,7 @@
 /* C03.ids / C01.ids: sqfs_id_table_id_to_index (lib/sqfs/src/id_table.c)
- * from an arbitrary table state (0 <= used <= 65536 ids of arbitrary value,
- * the representation invariant the function itself maintains), every id.
+ * from an arbitrary table state (0 <= used <= 65535 ids of arbitrary value:
+ * the representation invariant under which the count fits the super block
+ * field), every id.
  * The scan loop is closed by a loop contract (contracts/loops/C03.tbl);
  * array_append is replaced by its contract (append in place or fail).
  *
@@ -78,8 +79,13 @@ void harness(void)
 	tbl.ids.count = CAP;
 	tbl.ids.data = ids;
 	tbl.ids.used = verif_nd_size("used");
-	VERIF_ASSUME(tbl.ids.used <= 0x10000);
+	/* the representation invariant that makes the count fit 16 bit; the
+	 * function must preserve it (count_fits) */
+	VERIF_ASSUME(tbl.ids.used <= 0xFFFF);
 	used0 = tbl.ids.used;
+#ifdef VERIF_REPLAY
+	{ size_t k; for (k = 0; k < CAP; ++k) ids[k] = id ^ (sqfs_u32)(k + 1); }
+#endif
 	g_id_w = verif_nd_size("w");
 	VERIF_ASSUME(g_id_w < CAP);
 	g_id_wval = ids[g_id_w];
@@ -111,12 +117,14 @@ void harness(void)
 		VERIF_ASSERT(ret == SQFS_ERROR_OVERFLOW ||
 			     (ret == SQFS_ERROR_ALLOC && g_app_failed),
 			     P ".ids.status_domain");
+#ifdef IDS_EXPECT_REFUSAL
 		VERIF_COVER(ret == SQFS_ERROR_OVERFLOW);
+#endif
 		VERIF_COVER(ret == SQFS_ERROR_ALLOC);
 	}
 #ifdef IDS_REFUSE
 	/* an id not in a table of 65535 entries cannot be represented */
-	if (used0 >= 0xFFFF && g_app_calls + (ret == SQFS_ERROR_OVERFLOW) > 0)
+	if (used0 == 0xFFFF && g_app_calls + (ret == SQFS_ERROR_OVERFLOW) > 0)
 		VERIF_ASSERT(ret == SQFS_ERROR_OVERFLOW && g_app_calls == 0 &&
 			     out == out0, P ".ids.refuse");
 #endif
